@@ -1,7 +1,8 @@
 //! C14 / C15 stream `epoll`: real serve_epoll runs with concurrent clients, recorded through hook H3.
 //! case:  `<workers> <conns> <maxreqs> <addfail> <salt>`  (addfail = number of connections whose EPOLL_CTL_ADD is made to fail)
 //! impl:  `<trace> clients=<ok|bad:...> accepted=<n> freed=<n> dropped=<n>` with trace tokens (connection = index of
-//!        the record incarnation in order of first appearance)
+//!        the record incarnation in order of first appearance); recalloc / recfree = allocations / deallocations of 64-byte-aligned
+//!        blocks seen by the harness's global allocator during the run (the connection records)
 //!        A<i> accept, A<i>! ADD failed, V<i> event seen, S<i> closed seen (stale), O<i> CAS ok (dispatched), F<i> free,
 //!        B batch end, J<i> job start, R<i> re-arm, D<i> DEL, X<i> stream drop, C<i> closed store
 use crate::s_conn::{app, parse_response};
@@ -29,6 +30,7 @@ pub fn run(case: &str) -> String {
     let f: Vec<u64> = case.split(' ').map(|x| x.parse().unwrap()).collect();
     let (workers, nconn, maxreq, addfail, salt) = (f[0] as usize, f[1] as usize, f[2], f[3] as usize, f[4]);
     let _ = verif::take_log();
+    let (a64a0, a64f0) = (crate::A64_ALLOCS.load(Ordering::SeqCst), crate::A64_FREES.load(Ordering::SeqCst));
     let port = { let l = TcpListener::bind("127.0.0.1:0").unwrap(); l.local_addr().unwrap().port() };
     let stop = Arc::new(AtomicBool::new(false));
     let mut b = Server::builder(("127.0.0.1", port)).unwrap();
@@ -173,7 +175,9 @@ pub fn run(case: &str) -> String {
     }
     if !cur_g.is_empty() { groups.push((cur_g, 1)); }
     let enc: Vec<String> = groups.iter().map(|(g, n)| if *n > 1 { format!("{}*{}", g.join(","), n) } else { g.join(",") }).collect();
-    format!("{} clients={} accepted={} freed={} dropped={}", enc.join(";"), if bad.is_empty() { "ok".to_string() } else { format!("bad:{}", bad.join("/").replace(' ', "_")) }, acc, freed, dropped)
+    // what the allocator saw: allocations / deallocations of 64-byte-aligned blocks (the connection records) during this run
+    let (reca, recf) = (crate::A64_ALLOCS.load(Ordering::SeqCst) - a64a0, crate::A64_FREES.load(Ordering::SeqCst) - a64f0);
+    format!("{} clients={} accepted={} freed={} dropped={} recalloc={} recfree={}", enc.join(";"), if bad.is_empty() { "ok".to_string() } else { format!("bad:{}", bad.join("/").replace(' ', "_")) }, acc, freed, dropped, reca, recf)
 }
 
 pub fn gen(ctx: &Ctx) {
